@@ -649,71 +649,11 @@ func (t *ZeroAllocTokenizer) processBlockTag(content string) {
 			t.AddToken(TOKEN_NAME, blockContent, t.line)
 		}
 
-	case "do":
-		// Handle variable assignment similar to set tag
-		assignPos := strings.Index(blockContent, "=")
-		if assignPos != -1 {
-			varName := strings.TrimSpace(blockContent[:assignPos])
-			value := strings.TrimSpace(blockContent[assignPos+1:])
-
-			// Check if varName is valid (should be a variable name)
-			// In Twig, variable names must start with a letter or underscore
-			if len(varName) > 0 && (isCharAlpha(varName[0]) || varName[0] == '_') {
-				// Add the variable name token
-				varName = t.GetStringConstant(varName)
-				t.AddToken(TOKEN_NAME, varName, t.line)
-
-				// Add the assignment operator
-				t.AddToken(TOKEN_OPERATOR, "=", t.line)
-
-				// Tokenize the value expression
-				if len(value) > 0 {
-					t.TokenizeExpression(value)
-				} else {
-					// Empty value after =, which is invalid
-					// Add an error token to trigger proper parser error
-					t.AddToken(TOKEN_EOF, "ERROR_MISSING_VALUE", t.line)
-				}
-			} else {
-				// Invalid variable name (like a number or operator)
-				// Just tokenize as expressions to produce an error in the parser
-				t.TokenizeExpression(varName)
-				t.AddToken(TOKEN_OPERATOR, "=", t.line)
-				t.TokenizeExpression(value)
-			}
-		} else {
-			// No assignment, just an expression to evaluate
-			t.TokenizeExpression(blockContent)
-		}
-
-	case "include":
-		// Handle include with template path and optional context
-		withPos := strings.Index(asciiLower(blockContent), " with ")
-		if withPos != -1 {
-			templatePath := strings.TrimSpace(blockContent[:withPos])
-			contextExpr := strings.TrimSpace(blockContent[withPos+6:])
-
-			// Process template path
-			t.tokenizeTemplatePath(templatePath)
-
-			// Add 'with' keyword
-			t.AddToken(TOKEN_NAME, "with", t.line)
-
-			// Process context expression as object
-			if strings.HasPrefix(contextExpr, "{") && strings.HasSuffix(contextExpr, "}") {
-				// Context is an object literal
-				t.AddToken(TOKEN_PUNCTUATION, "{", t.line)
-				objectContent := contextExpr[1 : len(contextExpr)-1]
-				t.tokenizeObjectContents(objectContent)
-				t.AddToken(TOKEN_PUNCTUATION, "}", t.line)
-			} else {
-				// Context is a variable or expression
-				t.TokenizeExpression(contextExpr)
-			}
-		} else {
-			// Just a template path
-			t.tokenizeTemplatePath(blockContent)
-		}
+	case "do", "include":
+		// The parser finds '=', 'with', 'only' and the other keywords among the
+		// tokens; splitting the raw text here would also split inside
+		// operators such as == and inside string literals
+		t.TokenizeExpression(blockContent)
 
 	case "extends":
 		// Handle extends tag (similar to include template path)
